@@ -36,6 +36,14 @@ def yj(o):
         for k, v in o.items():
             if not isinstance(k, str):
                 raise Unrepresentable(f'key {k!r}')
+            if k == '$include':
+                # the model's file names are in normal form (`./a.yaml`, `a//b.yaml` name the files `a.yaml`, `a/b.yaml`):
+                # barectf normalises the joined path before its inclusion-cycle test
+                import posixpath
+                if isinstance(v, str):
+                    v = posixpath.normpath(v) if v else v
+                elif isinstance(v, list):
+                    v = [posixpath.normpath(x) if isinstance(x, str) and x else x for x in v]
             out.append([k, yj(v)])
         return {'m': out}
     raise Unrepresentable(type(o).__name__)
@@ -233,15 +241,27 @@ def parse_model(line):
     return ('bad', line)
 
 
+def _inc_norm(v):
+    import posixpath
+    if isinstance(v, str):
+        return posixpath.normpath(v) if v else v
+    if isinstance(v, list):
+        return [posixpath.normpath(x) if isinstance(x, str) and x else x for x in v]
+    return v
+
+
 def tree_eq(a, b):
-    """ordered comparison: key order of mappings is significant; bool is not int"""
+    """ordered comparison: key order of mappings is significant; bool is not int.  The value of an `$include` property
+    that was left in place (an object that is not processed as an includable one) is compared up to the spelling of the
+    path, because the model's inputs carry normalised paths (see `yj`)"""
     if type(a) is not type(b):
         if isinstance(a, dict) and isinstance(b, dict):
             pass
         else:
             return False
     if isinstance(a, dict):
-        return list(a.keys()) == list(b.keys()) and all(tree_eq(a[k], b[k]) for k in a)
+        return list(a.keys()) == list(b.keys()) and all(
+            tree_eq(_inc_norm(a[k]), _inc_norm(b[k])) if k == '$include' else tree_eq(a[k], b[k]) for k in a)
     if isinstance(a, list):
         return len(a) == len(b) and all(tree_eq(x, y) for x, y in zip(a, b))
     if isinstance(a, float):
